@@ -82,7 +82,7 @@ pub fn run_client(ctx: &Ctx, proto: Proto, key: Option<(&[u8], KeyEnc)>, mode: M
         Mode::Verbose => args.push("-v".into()),
         Mode::Plain => {}
     }
-    let mut cmd = Command::new(ctx.bins.join("roughenough-client"));
+    let mut cmd = crate::procs::wrapped("RTVERIF_WRAP_CLIENT", &ctx.bins.join("roughenough-client"));
     cmd.args(&args).stdin(Stdio::null()).stdout(Stdio::piped()).stderr(Stdio::piped()).env("TZ", "UTC");
     let mut child = cmd.spawn().map_err(|e| format!("spawn client: {}", e))?;
     let mut so = child.stdout.take().unwrap();
@@ -570,6 +570,10 @@ pub fn run_c01(ctx: &Ctx, out: &mut Out) {
             }
         }
         out.obs("client_runs", 1);
+        if std::env::var("RTVERIF_WRAP_CLIENT").is_ok() {
+            out.obs("valgrind_client_runs", 1);
+            out.obs("valgrind_error_blocks", crate::procs::valgrind_errors(&run.stderr) as i64);
+        }
         if run.watchdog {
             out.inconclusive("client watchdog expired");
             continue;
